@@ -16,7 +16,12 @@ void io_set_log(int on);
  * 7 EINTR-once-then-succeed is the same as 3 (caller may retry) */
 int io_add_fault(const char *cls, const char *sys, long k, int kind, long arg);
 void io_dump_counts(void);
+void io_watch(const char *cls, const char *spec);
+extern long io_oob_count, io_watch_writes;
 ssize_t real_write(int fd, const void *buf, size_t n);
 ssize_t real_read(int fd, void *buf, size_t n);
 off_t real_lseek(int fd, off_t off, int wh);
+ssize_t real_pwrite(int fd, const void *buf, size_t n, off_t off);
+ssize_t real_pread(int fd, void *buf, size_t n, off_t off);
+int real_ftruncate(int fd, off_t len);
 #endif
